@@ -43,6 +43,20 @@ THEOREMS = [
     "HedVerif.C08.codes",
 ]
 BUDGET = {"quick": 900, "thorough": 3600}
+# closed mode (string-level oracle instantiated by the C01 model): theorems of lean/HedVerif/Props/Closed.lean
+EXTRA_AUDIT = ("HedVerif.Props.Closed", [
+    "HedVerif.C08.sidecar_eval_closed",
+    "HedVerif.C08.validate_eq_closed",
+    "HedVerif.C08.sidecar_total_closed",
+    "HedVerif.C08.fault_top_level_closed",
+    "HedVerif.C08.fault_braces_closed",
+    "HedVerif.C08.fault_unknown_ref_closed",
+    "HedVerif.C08.fault_pound_value_closed",
+    "HedVerif.C08.fault_pound_category_closed",
+    "HedVerif.C08.string_fault_category_closed",
+    "HedVerif.C08.string_fault_value_closed",
+    "HedVerif.C08.sidecar_pipeline_example_closed",
+])
 
 # ------------------------------------------------------------------------------------------ extraction
 
@@ -632,6 +646,11 @@ def run(ctx):
         check_docs(ctx, gdocs[lo:lo + 3000], schema, table, expect[lo:lo + 3000])
     ctx.extra["generated_wellformed"] = nbase
     ctx.extra["fault_cases"] = len(gdocs) - nbase
+    try:    # closed mode: the same pipeline with string validation computed by the C01 model inside Lean
+        from harness.props import closed_c08
+        closed_c08.run_closed(ctx)
+    except ImportError:
+        pass
 
 
 def replay(ctx, rec):
@@ -642,6 +661,11 @@ def replay(ctx, rec):
     case = rec.get("case") or (rec.get("disagreements") or [{}])[0].get("case")
     if not case:
         print("nothing to replay (obligation-only record):", rec.get("broken_obligations"))
+        return
+    if case.get("closed"):
+        from harness.props import closed_c08
+        closed_c08.run_closed(ctx, docs=[case["doc"]])
+        print("replayed (closed mode)", json.dumps(case)[:300])
         return
     if "doc" in case:
         exp = None
